@@ -6,7 +6,7 @@ CFG = {
     "theorems": ["C03_collection_converges_without_overlap", "C03_value_converges_without_overlap",
                  "C03_single_writer_converges_partial", "C03_concurrent_deletes_converge",
                  "C03_multi_writer_refuted", "C03_update_delete_refuted"],
-    "level_text": "Theorems (Props/C03.v, closed, arbitrary message algebra / read mask / program / schedule): the C02 transition system extended with subscribers (Pull = snapshot + Listen in one step under the read lock; a publication reaches the subscribers present when it starts; backpressured, always-receiving consumers). For EVERY program and schedule in which no commit happens while another thread's publication on the same resource is pending, once all calls have returned a seeded Collection.Pull's folded view equals List with the same read mask and a Value.Pull's last event is the final (masked) value, for a subscription opened at any schedule position (nothing missed, nothing duplicated into a wrong state). Commits never overlap when one writer runs at a time (single-writer clause, proved for all schedules) and for any number of concurrent Deletes (they publish under the lock). With two overlapping writers the claim is refuted on the faithful model and on the code: Set/Update publish after releasing the lock, so [W1.save; W2.save; W2.publish; W1.publish] leaves the view stale (known finding coq:1). Tied to the code by ~770 forced schedules (1-2 writers + subscriber at every position, 4 read-option variants) + sampled 1-3 writers / 1-2 subscribers, comparing every delivered event with the model; predicate: folded view = final read on the observation.",
+    "level_text": "Theorems (Props/C03.v, closed, arbitrary message algebra / read mask / program / schedule): the C02 transition system extended with subscribers (Pull = snapshot + Listen in one step under the read lock; a publication reaches the subscribers present when it starts; backpressured, always-receiving consumers). For EVERY program and schedule in which no commit happens while another thread's publication on the same resource is pending, once all calls have returned a seeded Collection.Pull's folded view equals List with the same read mask and a Value.Pull's last event is the final (masked) value, for a subscription opened at any schedule position (nothing missed, nothing duplicated into a wrong state). Commits never overlap when one writer runs at a time (single-writer clause, proved for all schedules) and for any number of concurrent Deletes (they publish under the lock). With two overlapping writers the claim is refuted on the faithful model and on the code: Set/Update publish after releasing the lock, so [W1.save; W2.save; W2.publish; W1.publish] leaves the view stale (known finding coq:1). Tied to the code by ~770 forced schedules (1-2 writers + subscriber at every position, 4 read-option variants) + sampled 1-3 writers / 1-2 subscribers, comparing every delivered event with the model; predicate: folded view = final read on the observation; 3 lock-held probes per run check on the code that a seeded subscribe holds the read lock from snapshot to Listen and that Delete publishes under the write lock.",
     "level_note": "Trusted: as C02, plus minibus.Bus.Send as synchronous delivery to the listeners present (its own interleavings are C10's subject), Pull's forwarding goroutine as an order-preserving pipe; quiescence by a two-write sentinel. Not covered by the theorems (oracle only): Collection subscribers with updates-only; include predicates, PullID, equivalences (not generated).",
     "trusted_base": [
         "minibus.Bus modelled as atomic delivery to the listeners registered when Send starts; Pull's consumer goroutine as a FIFO pipe (backpressure, consumer always receiving)",
